@@ -167,6 +167,11 @@ fn replay(id: &'static str, path: &str) -> i32 {
                 None => EXIT_INCONCLUSIVE,
             };
         }
+        "active_connection" => {
+            let ctx = Ctx::new(id, Tier::Thorough, "exploration");
+            let acc = Accum::new();
+            return props::l3phases::active_connection_phase(&ctx, &acc, id == "C19").unwrap_or(EXIT_OK);
+        }
         "backpressure" => {
             let ctx = Ctx::new(id, Tier::Thorough, "exploration");
             let acc = Accum::new();
